@@ -25,6 +25,13 @@ func main() {
 		ck = harness.C13()
 	case "C14":
 		ck = harness.C14()
+	case "C18":
+		// only as the child binary of C18's isolation batch (plain build)
+		if len(os.Args) >= 3 && os.Args[2] == "helper" {
+			harness.ConcHelperMain()
+			return
+		}
+		ck = harness.C18()
 	default:
 		fmt.Fprintln(os.Stderr, "unknown property", os.Args[1])
 		os.Exit(2)
